@@ -31,6 +31,8 @@ class RCell:
         self.refs = tuple(refs)
         self.special = bool(special)
         self._memo = {}
+        if len(bits) > 1023 or len(self.refs) > 4:
+            raise RefCellError('cell overflow: more than 1023 bits or 4 references')
         # eager: children are always constructed first, so every recursion below is one level deep
         # (a depth-1023 chain never recurses 1023 frames)
         for i in range(4):
